@@ -13,6 +13,19 @@ import (
 // arguments (without the receiver, which is `recv`), and local variables of the
 // caller that are defined at the call are visible by name.
 func (f *Frame) callSiteAsserts(instr *ssa.Call, cc *ssa.CallCommon, calleeName string, args []string, reach string, st *State) {
+	var in ssa.Instruction
+	if instr != nil {
+		in = instr
+	}
+	f.siteAsserts(in, cc, calleeName, args, reach, st)
+}
+
+// goSiteAsserts: the same for a go statement (anchor `call go.<callee>`).
+func (f *Frame) goSiteAsserts(instr *ssa.Go, cc *ssa.CallCommon, calleeName string, args []string, reach string, st *State) {
+	f.siteAsserts(instr, cc, calleeName, args, reach, st)
+}
+
+func (f *Frame) siteAsserts(instr ssa.Instruction, cc *ssa.CallCommon, calleeName string, args []string, reach string, st *State) {
 	top := f.top
 	if top == nil || top.contract == nil {
 		return
